@@ -403,19 +403,39 @@ static void do_audit(const char *arg)
         int id = atoi(arg);
         struct iauth_request *req = find ? find(id) : NULL;
         if (req) {
-            /* set_find() splays the match to the root, so the node of a
-             * found request is the root of the (file-static) table. */
+            /* The table is file-static; its nodes are reached through the
+             * threaded list from a found request.  Nothing is assumed about
+             * where a lookup leaves the node in the tree (a set that does
+             * not splay on lookup is just as good): the root is the one node
+             * that is no node's child. */
             struct set fake;
-            struct set_node *n = set_node(req), *f;
-            unsigned cnt = 0;
+            struct set_node *n = set_node(req), *f, *g, *root = NULL;
+            unsigned cnt = 0, roots = 0;
             memset(&fake, 0, sizeof fake);
             fake.compare = set_compare_int;
-            fake.root = n;
             for (f = n; f->prev; f = f->prev) {}
-            for (; f; f = f->next)
+            for (g = f; g; g = g->next)
                 cnt++;
+            if (cnt <= 4096) {
+                struct set_node *h;
+                for (g = f; g; g = g->next) {
+                    int is_child = 0;
+                    for (h = f; h && !is_child; h = h->next)
+                        is_child = (h->l == g || h->r == g);
+                    if (!is_child) {
+                        roots++;
+                        root = g;
+                    }
+                }
+                if (roots != 1) {
+                    sim_note("AUDIT FAIL roots=%u requests", roots);
+                    audit_fail++;
+                }
+            } else
+                root = NULL;    /* too large for the quadratic search: list checks only */
+            fake.root = root;
             fake.count = cnt;
-            nreq = audit_set(&fake, "requests");
+            nreq = root ? (long)audit_set(&fake, "requests") : (long)cnt;
             for (f = n; f->prev; f = f->prev) {}
             for (; f; f = f->next) {
                 struct iauth_request *r = set_node_data(f);
